@@ -91,6 +91,22 @@ def linearize(t, depth=0):
                 return la.scale(lb.c)
         if o == "<<" and b.k == "const" and isinstance(b.a[0], int) and 0 <= b.a[0] < 64:
             return Lin({t: 1})
+        if o == "//" and b.k == "const" and isinstance(b.a[0], int) and not isinstance(b.a[0], bool) and b.a[0] > 1:
+            # floor division by a positive constant: summands that are multiples of it leave the quotient exactly
+            # ((c*k*X + R) // c == k*X + R // c for integers)
+            c_ = b.a[0]
+            la = linearize(a)
+            whole = {k_: v_ // c_ for k_, v_ in la.co.items() if v_ % c_ == 0}
+            rest = {k_: v_ for k_, v_ in la.co.items() if v_ % c_ != 0}
+            if whole and all((x_.ty == "int" or x_.k in ("idx", "unpacked") or (x_.k == "un" and x_.a[0] in ("len", "int"))
+                              or (x_.k == "bound?" and x_.a[0] in ("days", "seconds", "microseconds"))) for x_ in whole):
+                if not rest:
+                    return Lin(whole, la.c // c_)
+                rt = C(la.c)
+                for a_, v_ in sorted(rest.items(), key=lambda kv: show(kv[0])):
+                    rt = binop("+", rt, a_ if v_ == 1 else binop("*", C(v_), a_))
+                return Lin(whole, 0) + Lin({binop("//", rt, b): 1})
+            return Lin({t: 1})
         if o == "|":
             f_ = _be_field(t)
             if f_ is not None:
